@@ -1,0 +1,34 @@
+//go:build verif
+
+package feemarket
+
+// Contracts for the deductive checker in /verif (comment-only; compiled only with -tags verif).
+
+/*@
+// ---- C19: feemarket genesis export / import
+func ExportGenesis
+    ensures nonnil: result != nil
+    ensures params: result.Params == fm_params
+    ensures blockgas: result.BlockGas == fm_block_gas
+
+func InitGenesis
+    maypanic
+    modifies fm_params, fm_block_gas
+    ensures params: fm_params == data.Params
+    ensures blockgas: fm_block_gas == data.BlockGas
+@*/
+
+/*@
+// ---- C19 round trip (ghost compositions in zz_roundtrip_verif.go)
+func verifFreshChain
+    trusted
+    modifies fm_params, fm_block_gas
+func verifReimport
+    maypanic
+    modifies fm_params, fm_block_gas
+    ensures same_state: fm_params == old(fm_params) && fm_block_gas == old(fm_block_gas)
+func verifReexport
+    maypanic
+    modifies fm_params, fm_block_gas
+    ensures same_document: result != nil && result.Params == g.Params && result.BlockGas == g.BlockGas
+@*/
